@@ -12,12 +12,34 @@ EXTENDS TraceComp, TLC
 VARIABLES l, nbad
 vars == <<l, nbad>>
 
+(***************************************************************************)
+(* History  Parse ; AddAux(id, 1 kWh per step) ; Normalize  on the parsed  *)
+(* set: the auxiliary energy of the system is then what it was plus what   *)
+(* was added (every declared kWh is kept, also the ones assigned by an     *)
+(* earlier normalisation), no share is negative and the other systems'     *)
+(* auxiliaries are as they were.                                           *)
+(***************************************************************************)
+ReaddClauses(e) ==
+  IF "readd" \notin DOMAIN e.out THEN {}
+  ELSE LET r == e.out.readd IN
+       IF ~r.ok THEN (IF r.err = "Panic" THEN {"panic_while_assigning_added_auxiliaries"} ELSE {})   \* (a typed refusal can be right: auxiliary energy now positive without any output energy)
+       ELSE LET B == e.out.data  A == r.data
+                auxOf(C, id) == {i \in 1..Len(C) : IsAux(C[i]) /\ C[i].id = id}
+                sumAt(C, I, t) == ISumSet(LAMBDA i : C[i].v[t], I)
+                ids == {B[i].id : i \in {i \in 1..Len(B) : IsAux(B[i])}}
+                tol(C, id) == Cardinality(auxOf(C, id)) + 2
+            IN (IF \A t \in 1..e.N : Abs(sumAt(A, auxOf(A, r.id), t) - (sumAt(B, auxOf(B, r.id), t) + r.add[t])) <= tol(A, r.id) + tol(B, r.id)
+                THEN {} ELSE {"added_auxiliaries_not_conserved"})
+               \cup (IF \A i \in auxOf(A, r.id) : \A t \in 1..e.N : A[i].v[t] >= 0 \/ \E j \in auxOf(B, r.id) : B[j].v[t] < 0 THEN {} ELSE {"negative_aux_share_after_adding"})
+               \cup (IF \A id \in ids \ {r.id} : \A t \in 1..e.N : Abs(sumAt(A, auxOf(A, id), t) - sumAt(B, auxOf(B, id), t)) <= tol(A, id) + tol(B, id)
+                     THEN {} ELSE {"other_systems_auxiliaries_changed_by_adding"})
+
 JudgeParse(e) ==
   IF ~e.out.ok THEN
      (IF e.out.err = "Panic" THEN {"panic_while_assigning_auxiliaries"}
       ELSE IF ClearCut(e) THEN {"clear_cut_file_refused:" \o e.out.err} ELSE {})
   ELSE IF \E i \in 1..Len(e.out.data) : Len(e.out.data[i].v) # e.N THEN {"component_with_wrong_number_of_steps"}
-  ELSE UNION {C06IdClauses(e, id) : id \in AuxIds(e.input)}
+  ELSE UNION {C06IdClauses(e, id) : id \in AuxIds(e.input)} \cup ReaddClauses(e)
 
 \* Eval event: flat result + the normalised components it was computed from
 EL == "ELECTRICIDAD"
